@@ -27,6 +27,10 @@ SHAPES = ['join', 'in_subquery', 'not_in_subquery', 'scalar_subquery', 'target_s
           'cte_collide', 'cte_collide_join', 'join_subselect_limit', 'join_subselect_star', 'join_subselect_distinct', 'join_subselect_offset',
           'cte_only_in_where_subquery', 'cte_only_in_where_subquery_named_like_table', 'cte_only_in_exists', 'cte_only_in_target_subquery',
           'cte_only_in_not_in', 'cte_only_in_scalar']
+# chains of two set operations over three integrations' tables (combinations on which left-to-right grouping and the standard's
+# INTERSECT-first grouping agree)
+SETCHAINS = [(o1, o2) for o1 in ('UNION', 'UNION ALL', 'INTERSECT', 'EXCEPT') for o2 in ('UNION', 'UNION ALL', 'EXCEPT')] + [('INTERSECT', 'INTERSECT')]
+SHAPES += ['setchain_' + (o1 + '__' + o2).lower().replace(' ', '_') for o1, o2 in SETCHAINS]
 JOINS = ['JOIN', 'INNER JOIN', 'LEFT JOIN', 'RIGHT JOIN', 'FULL JOIN', 'LEFT OUTER JOIN', 'FULL OUTER JOIN', 'CROSS JOIN', 'implicit']
 ONS = [('equi', 't1.id = t2.id'), ('equi_rconst', 't1.id = t2.id AND t2.b = 1'), ('equi_lconst', 't1.id = t2.id AND t1.a = 1'),
        ('nonequi', 't1.a < t2.b'), ('equi_or', 't1.id = t2.id OR t1.a = t2.b'), ('rev_equi', 't2.id = t1.id'), ('equi2', 't1.id = t2.id AND t1.a = t2.b'),
@@ -226,6 +230,13 @@ def build(a):
                 spec = []
                 return dict(sql=sql, full_sql=full, spec=[], limit=None, offset=None, catalog=cat, label=label(a),
                             ref_parts=(f'SELECT t1.id, t1.a FROM {t1}', shape, 'SELECT t2.id, t2.b FROM int2.t2'))
+        elif shape.startswith('setchain_'):
+            if a['targets'] or group or where or ospec or lim is not None:
+                return None
+            o1, o2 = SETCHAINS[[('setchain_' + (x + '__' + y).lower().replace(' ', '_')) for x, y in SETCHAINS].index(shape)]
+            body = f'SELECT t1.id, t1.a FROM {t1} {o1} SELECT t2.id, t2.b FROM int2.t2 {o2} SELECT t3.id, t3.c FROM int1.t3'
+            names = ['id', 'a']
+            full = sql = body
         elif shape == 'cte':
             if a['targets'] or group:
                 return None
@@ -412,12 +423,19 @@ class CHECK(Check):
         if self.cons is None:
             self.cons = [sqlref.make_db(db, attach=ATTACH) for db in self.dbs]
 
-    def plan(self, q):
+    def plan(self, q, reuse=False):
         out = parsing.outcome(q['sql'], 'mindsdb')
         if out.kind != 'ok':
             return ('notparsed', out)
         try:
-            plan = plan_query(out.value, **catalog(q['catalog']))
+            if reuse:
+                # the same statement planned twice by one QueryPlanner object: the second plan is the one judged
+                from mindsdb_sql.planner.query_planner import QueryPlanner
+                planner = QueryPlanner(**catalog(q['catalog']))
+                planner.from_query(parsing.outcome(q['sql'], 'mindsdb').value)
+                plan = planner.from_query(out.value)
+            else:
+                plan = plan_query(out.value, **catalog(q['catalog']))
         except (PlanningException, NotImplementedError) as e:
             return ('unsupported', e)
         except Exception as e:
@@ -436,9 +454,9 @@ class CHECK(Check):
                 n += 1
         return n
 
-    def evaluate(self, q, res=None, strip_limits=False):
+    def evaluate(self, q, res=None, strip_limits=False, reuse=False):
         self.ensure()
-        kind, plan = self.plan(q)
+        kind, plan = self.plan(q, reuse)
         if strip_limits and kind == 'plan' and not self.strip_fetch_limits(plan):
             return [('rows-differ', 'no fetch carries a LIMIT')]
         if kind != 'plan':
@@ -500,6 +518,19 @@ class CHECK(Check):
         res.key(q['sql'] + '|' + q['catalog'])
         self.choose_dbs(sum(1 for v in case if v))
         fails = self.evaluate(q, res)
+        if not fails:
+            # a planner object that has planned this statement before must plan it the same way; if it does not, the second plan is judged too
+            k1, p1 = self.plan(q)
+            k2, p2 = self.plan(q, reuse=True)
+            if k1 == 'plan':
+                from vf import histories
+                same = k2 == 'plan' and histories.canon(repr(p1.steps)) == histories.canon(repr(p2.steps))
+                res.count('second_plans_on_a_reused_planner')
+                if not same:
+                    res.count('second_plans_that_differ')
+                    f2 = self.evaluate(q, reuse=True) if k2 == 'plan' else [('second-planning-fails', f'{q["sql"]!r}: {k2} {p2!r}')]
+                    for k, msg in f2:
+                        res.violation(f'reused-planner|{k}|{SHAPES[a["shape"]]}', 'second plan of the statement on one QueryPlanner object: ' + msg)
         for k, msg in fails:
             cur = dict(a)
             if k == 'rows-differ' and q['limit'] is not None and not any(k2 == 'rows-differ' for k2, _ in self.evaluate(q, strip_limits=True)):
@@ -528,7 +559,7 @@ class CHECK(Check):
                 'features': {n: [o[0] if isinstance(o, tuple) else o for o in opts] for n, opts in FEATURES.items()},
                 'plan_shapes_seen': len(agg['cover'].get('step_classes', ())),
                 'rule': 'all feature assignments with <= d non-default features (quick 2, thorough 3) + full products join x {on, where, order x limit, group, '
-                        'targets, limit x offset, catalog x limit, alias x where}, shape x {order x limit, join}; each plan interpreted on every database; '
+                        'targets, limit x offset, catalog x limit, alias x where}, shape x {order x limit, join}; each plan interpreted on every database; a second plan of the same statement on one QueryPlanner object must equal the first (else it is interpreted too); '
                         'distinct_nontrivial = distinct (SQL text, catalog)'}
 
     def describe_case(self, case):
